@@ -89,7 +89,12 @@ func groupListCore(n int, reduced bool) {
 	verifAssert(err == nil, "no error")
 	out := buf.String()
 	verifObserve("out", out)
-	verifAssert(out == refGroup(g.name, g.open, g.close, g.separator, g.multi, nulls, texts), "exactly the non-null items, in order, separated")
+	want := refGroup(g.name, g.open, g.close, g.separator, g.multi, nulls, texts)
+	verifAssert(out == want, "exactly the non-null items, in order, separated")
+	// rendering must not consume or reorder the items: the same list renders the same again
+	buf2 := &bytes.Buffer{}
+	g.render(f, buf2, nil)
+	verifAssert(buf2.String() == want, "the list renders the same a second time")
 	var isn bool
 	panicked = verifPanics(func() { isn = g.isNull(f) })
 	verifAssert(!panicked, "null test of a list with nil/null items does not panic")
@@ -136,6 +141,9 @@ func statementListCore(n int, reduced bool) {
 	out := buf.String()
 	verifObserve("out", out)
 	verifAssert(out == refStatement(nulls, texts), "exactly the non-null items, in order, space separated")
+	buf2 := &bytes.Buffer{}
+	s.render(f, buf2, nil)
+	verifAssert(buf2.String() == refStatement(nulls, texts), "the statement renders the same a second time")
 	var isn bool
 	panicked = verifPanics(func() { isn = s.isNull(f) })
 	verifAssert(!panicked, "null test of a statement with nil/null items does not panic")
